@@ -1,0 +1,15 @@
+//go:build verif
+
+package curl
+
+// Verification hooks (build tag verif): direct access to the two permutation routines.
+
+// VerifTransform calls the build-selected transform (the assembly on amd64 without purego).
+func VerifTransform(lto, hto, lfrom, hfrom *[StateSize]uint) {
+	transform(lto, hto, lfrom, hfrom)
+}
+
+// VerifTransformGeneric calls the portable Go permutation.
+func VerifTransformGeneric(lto, hto, lfrom, hfrom *[StateSize]uint) {
+	transformGeneric(lto, hto, lfrom, hfrom)
+}
